@@ -147,14 +147,16 @@ ASSUME_DEV = [
 def c01(pid, tier, replay):
     # key-emulating axes are keys too: their quiescence and their disconnect clean-up belong to C01
     return device_check(pid, tier, replay, ["C01_"], keys_jobs(tier) + axis_jobs("akey", [["ABS_HAT0X"], ["ABS_RX"], ["ABS_GAS"]], tier) + akeymap_jobs(tier),
-                        drivers=[devdrivers.random_keys, devdrivers.random_cfg_keys, devdrivers.c08_batches, devdrivers.akey_mapping_batches],
+                        drivers=[devdrivers.random_keys, devdrivers.random_cfg_keys, devdrivers.edge_pitch_collisions, devdrivers.c08_batches,
+                                 devdrivers.akey_mapping_batches, devdrivers.two_handler_key_batches],
                         assumptions=ASSUME_DEV)
 
 
 def c02(pid, tier, replay):
     # an axis emulating a key is a key: its Note Off is pinned to its Note On the same way (C08_Pinned, C08_Off)
     return device_check(pid, tier, replay, ["C02_", "C08_Pinned", "C08_Off"], keys_jobs(tier) + akeymap_jobs(tier),
-                        drivers=[devdrivers.random_keys, devdrivers.random_cfg_keys, devdrivers.akey_mapping_batches], assumptions=ASSUME_DEV)
+                        drivers=[devdrivers.random_keys, devdrivers.random_cfg_keys, devdrivers.edge_pitch_collisions, devdrivers.akey_mapping_batches,
+                                 devdrivers.c08_batches], assumptions=ASSUME_DEV)
 
 
 def c03(pid, tier, replay):
@@ -165,7 +167,8 @@ def c03(pid, tier, replay):
             jobs.append(J("collide", Variant="collide", Mode=m, OctB=0, ChanB=1))
         else:
             jobs.append(J("collide", Variant="collide", Mode=m, OctB=1, ChanB=1, split=4))
-    return device_check(pid, tier, replay, ["C03_"], jobs, drivers=[devdrivers.random_keys, devdrivers.random_cfg_keys], assumptions=ASSUME_DEV)
+    return device_check(pid, tier, replay, ["C03_"], jobs, drivers=[devdrivers.random_keys, devdrivers.random_cfg_keys, devdrivers.edge_pitch_collisions],
+                        assumptions=ASSUME_DEV)
 
 
 def c04(pid, tier, replay):
@@ -249,7 +252,7 @@ def c08(pid, tier, replay):
     sets = [["ABS_HAT0X"], ["ABS_Z"], ["ABS_RX"], ["ABS_GAS"], ["ABS_HAT0X", "ABS_RX"]]
     jobs = axis_jobs("akey", sets, tier, cfgmode="toml") + akeymap_jobs(tier)
     def drv(seed, t):
-        return with_toml(devdrivers.c08_batches(seed, t) + devdrivers.akey_mapping_batches(seed, t))
+        return with_toml(devdrivers.c08_batches(seed, t) + devdrivers.akey_mapping_batches(seed, t) + devdrivers.two_handler_key_batches(seed, t))
     return device_check(pid, tier, replay, ["C08_", "C01_"], jobs, drivers=[drv], assumptions=ASSUME_DEV[:2] + [
         "configurations are rendered as TOML and parsed by the real config.ParseData (the anchor includes parser.go:261-290)"])
 
@@ -484,7 +487,7 @@ def abort_line(cur, stderr):
     return d
 
 
-def run_parse_cases(scr, h, cases, tag):
+def run_parse_cases(scr, h, cases, tag, sub="parse", extra=()):
     """`verifh parse` over the cases.  A run-time abort of the harness process with HIDI frames on the stack IS the
     behaviour C09 forbids (no recover() can stop it): the input being parsed is logged with outcome "fatal" and the
     remaining cases run in a fresh process (at most three such restarts)."""
@@ -497,7 +500,7 @@ def run_parse_cases(scr, h, cases, tag):
             json.dump(rest, f)
         part = scr.fresh(tag + "-part") + ".ndjson"
         cur = scr.fresh(tag + "-cur") + ".json"
-        r = subprocess.run([h, "parse", cpath, part], stdout=subprocess.PIPE, stderr=subprocess.PIPE, text=True, timeout=1800,
+        r = subprocess.run([h, sub, cpath] + list(extra) + [part], stdout=subprocess.PIPE, stderr=subprocess.PIPE, text=True, timeout=1800,
                            env=dict(os.environ, VERIFH_CUR=cur))
         os.remove(cpath)
         if r.returncode == 0:
@@ -586,6 +589,10 @@ def c09(pid, tier, replay):
     for c in cfggen.c10_cases(seed, "quick"):
         cases.append({"id": len(cases) + 1, "kind": "described", "toml": c["toml"]})
     t1 = run_parse_cases(scr, h, cases, "c09s")
+    # ... and the way the running application reads them: as a file in a configuration directory, through the loader
+    # (directory walk, readDeviceConfig and its error reporting are outside ParseData's guard)
+    lcases = cases if tier == "thorough" else cases[::3]
+    t1b = run_parse_cases(scr, h, lcases, "c09l", sub="loadparse", extra=[scr.path("loadparse-tree")])
     # (b) byte-level mutations of the shipped files and of rendered ones
     files = sorted(glob.glob(os.path.join(scr.repo, "cmd/hidi/hidi-config/factory/*/*.toml")))
     import random
@@ -632,7 +639,7 @@ def c09(pid, tier, replay):
             if r.returncode != 0:
                 raise Infra("cmd/hidi verif entry failed: " + r.stderr[-2000:])
     fuzz_total = 0
-    for t in (t1, t2, t3):
+    for t in (t1, t1b, t2, t3):
         r = vlib.validate_trace(scr, "ConfigFileTrace", t)
         out.add(t, r, sample_filter=lambda d: d.get("ev") in ("parse", "hidiconfig"))
     with open(t2) as f:
